@@ -34,6 +34,8 @@ func runC05(c *an.Ctx) {
 	// ---- R8: upstream EDNS options never reach the client; the client's ECS data survives the copy made for rewritten requests
 	c.Floor("C05-R8", 3)
 	ecsHopToHop(c, "C05-R8")
+	// a recycled request-information object never carries the previous client's ECS data or location
+	sharedPoolInitSweep(c, "C05-R8", "agd.RequestInfo")
 	c.Inf("C05-R8", "partial-copy sweep", token.NoPos, "%d field-by-field copies examined in dnssvc", sharedPartialCopy(c, "C05-R8", func(fn *ssa.Function) bool {
 		return strings.HasPrefix(an.FnKey(fn), "dnssvc")
 	}, map[string]string{}))
